@@ -112,3 +112,54 @@ pub assume_specification<T, A: std::alloc::Allocator, F: FnMut() -> T>[Vec::<T, 
 // same allocation" (Verus identifies an `Arc<T>` with the `T` it points to).
 pub assume_specification<T: ?Sized, A: std::alloc::Allocator + Clone>[<Arc<T, A> as Clone>::clone](a: &Arc<T, A>) -> (r: Arc<T, A>)
     ensures r == *a;
+
+// TRUSTED (A-CLONE / A-DERIVE): `#[derive(Clone)]` on `Timers` and `RandomChoices` (/repo/src/actor/timers.rs,
+// model_state.rs; the structs themselves are copied by the unit) returns a value with the same timers / the same
+// choices. Needed by `ActorModelState::clone` (verified in the unit) and by `vec![X; n]` in `init_states`.
+impl<T: Hash + Eq + Clone> Clone for Timers<T> {
+    #[verifier::external_body]
+    fn clone(&self) -> (r: Self) ensures r@ == self@ { unimplemented!() }
+}
+impl<Random: Clone> Clone for RandomChoices<Random> {
+    #[verifier::external_body]
+    fn clone(&self) -> (r: Self) ensures r@ == self@ { unimplemented!() }
+}
+
+// A-EQ as an explicit precondition on a generic value type (cf. prelude/lawful.rs): `==` is equality of values,
+// what `#[derive(PartialEq)]` gives. Not an axiom: contracts that compare timers list `eq_lawful::<A::Timer>()`.
+spec fn eq_lawful<T: PartialEq>() -> bool {
+    &&& T::obeys_eq_spec()
+    &&& forall|a: T, b: T| #[trigger] a.eq_spec(&b) == (a == b)
+}
+
+// `out.iter()` on an `Out<A>`: /repo's `impl Deref for Out` is `self.0.deref()` (the slice of the command vector),
+// and slice::iter runs "from start to end": the iteration order of an `Out` is its command sequence
+// (prelude/iterseq.rs, rule R11_iter_any_all).
+impl<A: ActorSig> IterSeq for Out<A> {
+    type Item = Command<A::Msg, A::Timer, A::Random>;
+    open spec fn seq_view(&self) -> Seq<Command<A::Msg, A::Timer, A::Random>> { self@ }
+}
+#[verifier::external]
+impl<A: ActorSig> IterSeqExec for Out<A> { fn iter_seq_exec(&self) -> Vec<&Command<A::Msg, A::Timer, A::Random>> { self.0.iter().collect() } }
+
+// `is_no_op_with_timer` (/repo/src/actor.rs), copied mechanically: the handler left the state borrowed and its
+// whole output is one `SetTimer(timer, _)` that renews the timer that fired.
+/*@fn src/actor.rs :: - :: is_no_op_with_timer
+rules: R11_iter_any_all
+nloops: 1
+attr: #[verifier::loop_isolation(false)]
+requires:
+    [eq] eq_lawful::<A::Timer>()
+ensures:
+    [def] r == (*state is Borrowed && out@.len() == 1 && out@[0] is SetTimer && out@[0]->SetTimer_0 == *timer)
+loop 1:
+    invariant [bounds] i_ <= it_@.len() && it_@.len() == out@.len()
+    invariant [elems] forall|j: int| 0 <= j < it_@.len() ==> *#[trigger] it_@[j] == out@[j]
+    invariant [none-yet] !r_ ==> forall|j: int| 0 <= j < i_ ==> !(out@[j] is SetTimer && out@[j]->SetTimer_0 == *timer)
+    invariant [found] r_ ==> exists|j: int| 0 <= j < out@.len() && out@[j] is SetTimer && out@[j]->SetTimer_0 == *timer
+    decreases it_@.len() - i_
+hint before `if matches!(c,`:
+    assert(*c == out@[i_ - 1]);
+hint before `r_ = true; break;`:
+    assert(out@[i_ - 1] is SetTimer && out@[i_ - 1]->SetTimer_0 == *timer);
+@*/
